@@ -516,6 +516,20 @@ impl Request {
         Self::ignore_client_closing_errors(writer.flush())
     }
 
+    /// Answers a request whose own protocol version cannot be used for the answer: the
+    /// response is printed as HTTP/1.1, without regard to the request's headers, and flushed
+    /// before the request (and with it any unread part of its body) is discarded.
+    pub(crate) fn respond_as_http11<R>(mut self, response: Response<R>)
+    where
+        R: Read,
+    {
+        let mut writer = self.extract_writer_impl();
+        response
+            .raw_print(writer.by_ref(), HTTPVersion(1, 1), &[], false, None)
+            .ok();
+        writer.flush().ok();
+    }
+
     fn ignore_client_closing_errors(result: io::Result<()>) -> io::Result<()> {
         result.or_else(|err| match err.kind() {
             ErrorKind::BrokenPipe => Ok(()),
